@@ -1021,6 +1021,30 @@ def r_meta_roots(ctx, rule='R-META-ROOTS'):
         ty = g.local_ty(a0['place']['l'])
         return 'u32' in ty and 'NodeId' not in ty and 'RoaringBitmap' not in ty
     rm = [g for g in F.reach([be]).values() if any(x.callee.endswith('::iter_mut') and over_roots(g, x) for x in g.calls()) and g.path.startswith('writer::')]
+    # whichever way the per-root loop is spelled: while it runs, the root list is only updated in place -- sorting, swapping,
+    # removing or inserting inside the loop shifts the slots under the loop's feet and a tree is visited twice or skipped
+    for g in F.reach([be]).values():
+        if not g.path.startswith('writer::'):
+            continue
+        roots_params = [l for l in g.arg_locals() if 'Vec<u32>' in g.local_ty(l) or g.local_ty(l).replace(' ', '') in ('&mut[u32]',)]
+        walkers = [x for x in g.calls() if x.callee.startswith('writer::') and x.callee != g.path and F.fn(x.callee) is not None
+                   and any(y.callee == x.callee for y in F.fn(x.callee).calls()) and g.in_cycle(x.bb)]
+        if not roots_params or not walkers:
+            continue
+        lp = set()
+        for w in walkers:
+            for h in g.dominators().get(w.bb, ()):
+                nl = paths.natural_loop(g, h)
+                if w.bb in nl:
+                    lp |= set(nl)
+        movers = [x for x in g.calls() if x.bb in lp and x.args and x.callee.endswith(('::sort_unstable', '::sort', '::sort_by', '::sort_by_key', '::sort_unstable_by', '::sort_unstable_by_key',
+                                                                                         '::swap', '::swap_remove', 'Vec::<T, A>::remove', 'Vec::<T, A>::insert', '::reverse', '::retain',
+                                                                                         '::dedup', '::rotate_left', '::rotate_right', '::truncate', 'Vec::<T, A>::push', 'Vec::<T, A>::pop'))
+                  and root(x.arg_term(0))[0] == 'arg' and root(x.arg_term(0))[1] in roots_params]
+        # (a loop that *consumes* the list -- `let root = roots.swap_remove(0); delete_tree(root)` -- walks what it removed)
+        movers = [x for x in movers if not any(paths.mentions_call(w.arg_term(i), x.bb) for w in walkers for i in range(len(w.args)))]
+        ctx.check(not movers, rule, '%s/roots-stable-while-walked' % g.path, movers[0].loc() if movers else g.loc(), 'the root list is only updated in place while its trees are walked',
+                  'in `%s` the root list is reordered (%s) inside the loop that walks its trees: a tree can be skipped or visited twice, and the skipped one keeps what should have been removed' % (g.path, sorted({short(x.callee) for x in movers})))
     for g in rm:
         stores = []
         for bi, blk in enumerate(g.blocks):
@@ -1331,6 +1355,28 @@ def r_worklist(ctx, rule='Q-WORKLIST'):
                             remainder_passed.append((x, i))
                         elif candt[0] == 'call' and root(x.arg_term(i))[0] == 'call' and root(x.arg_term(i))[3] == candt[3]:
                             remainder_passed.append((x, i))
+            if not loops_on_cand and remainder_passed:
+                # ... on every path to the next round / the successful end, unless the remainder is known to be empty
+                hdrs = [h for h in f.dominators().get(c.bb, ()) if c.bb in paths.natural_loop(f, h)]
+                goals_r = [b for b, k, t in paths.ret_assigns(f) if k in ('ok', 'call', 'other')] + hdrs
+                empties = []
+                for b0 in f.live_blocks():
+                    if paths.switch_at(f, b0) is None:
+                        continue
+                    for x0 in f.succ(b0):
+                        e0 = paths.edge_cond(f, b0, x0)
+                        if e0 and e0[0] == 'bool':
+                            cc0 = strip(e0[1])
+                            neg0 = False
+                            while cc0[0] == 'unop' and cc0[1] == 'Not':
+                                cc0 = strip(cc0[2])
+                                neg0 = not neg0
+                            if cc0[0] == 'call' and cc0[1].endswith('RoaringBitmap>::is_empty') and cc0[2]:
+                                r0 = root(cc0[2][0])
+                                if (r0 == candt or (r0[0] == 'call' and candt[0] == 'call' and r0[3] == candt[3])) and (e0[2] != neg0):
+                                    empties.append(x0)
+                if not paths.must_pass(f, c.target, goals_r, [x.bb for x, i in remainder_passed] + empties):
+                    remainder_passed = []
             ctx.check(loops_on_cand or bool(remainder_passed), rule, key + '/remainder', c.loc(),
                       'the unselected remainder is %s' % ('re-examined by the enclosing `while !is_empty()` loop' if loops_on_cand else 'passed to %s' % [short(x.callee) for x, i in remainder_passed]),
                       'in `%s` the ids left in the candidates after a batch are neither looped over nor passed on: they would never be inserted' % f.path)
